@@ -998,6 +998,37 @@ func par3(c *Ctx) {
 			continue
 		}
 		c.Mark(cf)
+		// a constructor that only hands its arguments, in order, to an unexported one of the same package
+		// is judged by that one
+		for depth := 0; depth < 2; depth++ {
+			rps0 := ir.ReturnPoints(cf)
+			if len(rps0) != 1 {
+				break
+			}
+			v := rps0[0].Results[0]
+			if mi, isMI := v.(*ssa.MakeInterface); isMI {
+				v = mi.X
+			}
+			call, isCall := v.(*ssa.Call)
+			if !isCall {
+				break
+			}
+			g := ir.Static(call)
+			if g == nil || g.Pkg != cf.Pkg || len(g.Blocks) == 0 || len(call.Call.Args) != len(cf.Params) || len(g.Params) != len(cf.Params) {
+				break
+			}
+			same := true
+			for i, a := range call.Call.Args {
+				if a != ssa.Value(cf.Params[i]) {
+					same = false
+				}
+			}
+			if !same {
+				break
+			}
+			c.Mark(g)
+			cf = g
+		}
 		var problems []string
 		rps := ir.ReturnPoints(cf)
 		if len(rps) != 1 {
@@ -1008,6 +1039,8 @@ func par3(c *Ctx) {
 			var lit *ssa.Alloc
 			if isMI {
 				lit, _ = mi.X.(*ssa.Alloc)
+			} else {
+				lit, _ = r.Results[0].(*ssa.Alloc) // the delegate returns the concrete pointer
 			}
 			if lit == nil {
 				problems = append(problems, "does not return a fresh matcher literal")
@@ -1037,7 +1070,7 @@ func par3(c *Ctx) {
 			}
 		}
 		sort.Strings(problems)
-		reportP(c, Q(cf)+":faithful", cf.Pos(), problems, "every argument is stored, as given, in one field of the new matcher")
+		reportP(c, "matcher."+name+":faithful", cf.Pos(), problems, "every argument is stored, as given, in one field of the new matcher")
 	}
 	fn := p.atom
 	c.Mark(fn)
